@@ -228,4 +228,502 @@ theorem Wrote.untouched {s s' : State} {a : Arr} {sel : Sel} {newRows : List Row
       rw [h1, h2]
   · rw [hw.other b hb]
 
+/-! ### read-back through the written array -/
+
+theorem map_set_nodup (rows : List Row) (idx : List Nat) (hnd : idx.Nodup) (p : Nat) (hp : p < idx.length) (r : Row)
+    (hvalid : idx[p] < rows.length) :
+    idx.map (fun i => (rows.set idx[p] r)[i]?.getD []) = (idx.map (fun i => rows[i]?.getD [])).set p r := by
+  apply List.ext_getElem
+  · simp
+  · intro j h1 h2
+    have hj : j < idx.length := by simpa using h1
+    simp only [List.getElem_map, List.getElem_set, List.length_map]
+    by_cases hjp : p = j
+    · subst hjp
+      simp [List.getElem?_set, hvalid]
+    · have hne : idx[p] ≠ idx[j] := fun he => hjp (nodup_getElem_inj hnd p j hp hj he)
+      simp [hjp, List.getElem?_set, hne]
+
+/-- writing through an array whose row indices are pairwise distinct is `writeRows` on what the array
+    reads: position `pos[j]` of the array gets `new[j]` (later duplicates win), the rest is unchanged. -/
+theorem view_writeRows (idx : List Nat) (hnd : idx.Nodup) :
+    ∀ (upd : List (Nat × Row)) (rows : List Row), (∀ i ∈ idx, i < rows.length) → (∀ u ∈ upd, u.1 < idx.length) →
+      idx.map (fun i => (writeRows rows (upd.map (fun u => (idx[u.1]?.getD 0, u.2))))[i]?.getD []) =
+        writeRows (idx.map (fun i => rows[i]?.getD [])) upd := by
+  intro upd
+  induction upd with
+  | nil => intro rows _ _; rfl
+  | cons u rest ih =>
+    intro rows hvalid hupd
+    obtain ⟨p, r⟩ := u
+    have hp : p < idx.length := hupd (p, r) (by simp)
+    simp only [List.map_cons, writeRows, List.getElem?_eq_getElem hp, Option.getD_some]
+    rw [ih (rows.set idx[p] r) (by intro i hi; simpa using hvalid i hi) (fun u hu => hupd u (by simp [hu]))]
+    rw [map_set_nodup rows idx hnd p hp r (hvalid _ (List.getElem_mem hp))]
+
+theorem zip_map_left' {α β γ : Type} (f : α → γ) (l1 : List α) (l2 : List β) :
+    (l1.map f).zip l2 = (l1.zip l2).map (fun u => (f u.1, u.2)) := by
+  induction l1 generalizing l2 with
+  | nil => simp
+  | cons x t ih =>
+    cases l2 with
+    | nil => simp
+    | cons y t2 => simp [ih]
+
+/-- **read-back**: after `a[sel] = value` the array `a` itself reads its old rows with the selected
+    positions overwritten by the new rows. -/
+theorem Wrote.readback {s s' : State} {a : Arr} {sel : Sel} {newRows : List Row} (hw : Wrote s a sel newRows s')
+    (hv : ArrValid s a) (hnd : a.idx.Nodup) (hpos : ∀ p ∈ sel.pos, p < a.idx.length) :
+    arrRows s' a = writeRows (arrRows s a) (sel.pos.zip newRows) := by
+  simp only [arrRows]
+  rw [(hw.same hv.1).2.2, zip_map_left']
+  exact view_writeRows a.idx hnd (sel.pos.zip newRows) (s.buf a.buf).rows hv.2
+    (fun u hu => hpos u.1 (List.of_mem_zip hu).1)
+
+/-! ### `view[key] = value`: exact effect -/
+
+theorem writeRows_all (old new : List Row) (h : new.length = old.length) :
+    writeRows old ((List.range old.length).zip new) = new := by
+  apply List.ext_getElem
+  · rw [writeRows_length, h]
+  · intro i h1 h2
+    have hi : i < old.length := by rw [writeRows_length] at h1; exact h1
+    -- split the update list at position i
+    have hz : (List.range old.length).zip new =
+        ((List.range old.length).zip new).take i ++ (i, new[i]) :: ((List.range old.length).zip new).drop (i + 1) := by
+      have hlen : i < ((List.range old.length).zip new).length := by simp [h]; exact hi
+      have hd := List.drop_eq_getElem_cons hlen
+      have hLi : ((List.range old.length).zip new)[i] = (i, new[i]) := by simp
+      calc (List.range old.length).zip new
+          = ((List.range old.length).zip new).take i ++ ((List.range old.length).zip new).drop i :=
+            (List.take_append_drop i _).symm
+        _ = _ := by rw [hd, hLi]
+    have := writeRows_last old _ i hi new[i] _ _ hz (by
+      intro u hu
+      have hmem := List.mem_drop_iff_getElem.mp hu
+      obtain ⟨k, hk, hku⟩ := hmem
+      rw [← hku]
+      simp
+      omega)
+    rw [List.getElem?_eq_getElem h1] at this
+    injection this
+
+/-- **refines (`view[key] = value`, existing key)** — the value is broadcast (scalar → `(natoms,)`,
+    leading 1 → `natoms`), checked (`atype ≥ 1`) and written over the whole column through the stored
+    array: the column then reads exactly the cast rows of the broadcast value. -/
+theorem viewSet_existing_refines {κ : Nat → String} {s : State} (h : InvK κ s) (o : Nat) (key : String) (src : Src)
+    (a : Arr) (hfind : (s.obj o).find key = some a) :
+    Post (viewSet o key src) s (fun r s' => (∀ e, r = .error e → s' = s) ∧
+      (r = .ok () → ∃ src' newRows, BcastRes s (s.obj o).natoms src src' ∧
+        AssignedRows s a (allSel (s.obj o).natoms) (srcVal s src') newRows ∧
+        Wrote s a (allSel (s.obj o).natoms) newRows s' ∧ arrRows s' a = newRows)) := by
+  have hp := h.find_ok o key a hfind
+  unfold viewSet
+  rw [post_bind_getS]
+  simp only []
+  rcases viewBcast_cases s (s.obj o).natoms src with ⟨e, he⟩ | ⟨src', he, hres⟩
+  · rw [he, post_bind_fail]
+    exact ⟨fun _ _ => rfl, fun hc => by cases hc⟩
+  rw [he, post_bind_pure]
+  rcases viewGuard_cases key (s.obj o).natoms (srcVal s src') with ⟨e, hg⟩ | ⟨hg, _⟩
+  · rw [hg, post_bind_fail]
+    exact ⟨fun _ _ => rfl, fun hc => by cases hc⟩
+  rw [hg, post_bind_pure]
+  simp only [hfind]
+  apply Post.mono (assign_wrote a (allSel (s.obj o).natoms) (srcVal s src') s)
+  intro r s' ⟨h1, h2⟩
+  refine ⟨h1, ?_⟩
+  intro hr
+  obtain ⟨newRows, hn, _, hw⟩ := h2 hr
+  refine ⟨src', newRows, hres, hn, hw, ?_⟩
+  have hpos : ∀ p ∈ (allSel (s.obj o).natoms).pos, p < a.idx.length := by
+    intro p hp'; rw [hp.len]; simpa [allSel] using hp'
+  rw [hw.readback hp.valid hp.nodup hpos]
+  have hnl : newRows.length = (arrRows s a).length := by
+    obtain ⟨flat, cells, _, _, hnr⟩ := hn
+    rw [hnr, rowsOf_length]
+    simp [arrRows, allSel, hp.len]
+  have hl : (arrRows s a).length = (s.obj o).natoms := by simp [arrRows, hp.len]
+  have : (allSel (s.obj o).natoms).pos = List.range (arrRows s a).length := by simp [allSel, hl]
+  rw [this]
+  exact writeRows_all _ _ hnl
+
+/-! ### frames: what the extending operations leave alone -/
+
+/-- buffers below `n` and objects below `m` are literally the same in `s'`. -/
+def FrameOK (n m : Nat) (s s' : State) : Prop :=
+  (∀ b, b < n → s'.buf b = s.buf b) ∧ (∀ o, o < m → s'.obj o = s.obj o) ∧ s'.syss = s.syss
+
+theorem FrameOK.refl (n m : Nat) (s : State) : FrameOK n m s s := ⟨fun _ _ => rfl, fun _ _ => rfl, rfl⟩
+
+theorem FrameOK.trans {n m : Nat} {s s1 s2 : State} (h1 : FrameOK n m s s1) (h2 : FrameOK n m s1 s2) :
+    FrameOK n m s s2 :=
+  ⟨fun b hb => (h2.1 b hb).trans (h1.1 b hb), fun o ho => (h2.2.1 o ho).trans (h1.2.1 o ho), h2.2.2.trans h1.2.2⟩
+
+/-- all arrays of object `o` live in buffers allocated after the first `n`. -/
+def FreshObj (n : Nat) (o : Nat) (s : State) : Prop := ∀ p ∈ (s.obj o).props, n ≤ p.arr.buf
+
+theorem assign_frame (a : Arr) (sel : Sel) (v : Val) (s : State) (n m : Nat) (ha : n ≤ a.buf) :
+    Post (assign a sel v) s (fun _ s' => FrameOK n m s s' ∧ s'.objs = s.objs ∧ s'.heap.length = s.heap.length) := by
+  apply Post.mono (assign_spec a sel v s)
+  intro r s' ⟨h1, h2⟩
+  cases r with
+  | error e => rw [h1 e rfl]; exact ⟨FrameOK.refl n m s, rfl, rfl⟩
+  | ok u =>
+    obtain ⟨_, _, _, hobjs, hsys, hlen, hother, _⟩ := h2 rfl
+    refine ⟨⟨fun b hb => hother b (by omega), fun o _ => by simp [State.obj, hobjs], hsys⟩, hobjs, hlen⟩
+
+theorem viewSet_lit_frame (o : Nat) (key : String) (v : Val) (s : State) (n m : Nat) (hm : m ≤ o)
+    (hn : n ≤ s.heap.length) (hfresh : FreshObj n o s) :
+    Post (viewSet o key (.lit v)) s (fun _ s' => FrameOK n m s s' ∧ FreshObj n o s' ∧ n ≤ s'.heap.length ∧
+      s'.objs.length = s.objs.length) := by
+  unfold viewSet
+  rw [post_bind_getS]
+  simp only []
+  rcases viewBcast_cases s (s.obj o).natoms (.lit v) with ⟨e, he⟩ | ⟨src', he, hres⟩
+  · rw [he, post_bind_fail]; exact ⟨FrameOK.refl n m s, hfresh, hn, rfl⟩
+  rw [he, post_bind_pure]
+  rcases viewGuard_cases key (s.obj o).natoms (srcVal s src') with ⟨e, hg⟩ | ⟨hg, _⟩
+  · rw [hg, post_bind_fail]; exact ⟨FrameOK.refl n m s, hfresh, hn, rfl⟩
+  rw [hg, post_bind_pure]
+  split
+  · rename_i a hfind
+    obtain ⟨p, hp, _, hpa⟩ := find_mem _ _ _ hfind
+    have ha : n ≤ a.buf := by rw [← hpa]; exact hfresh p hp
+    apply Post.mono (assign_frame a _ _ s n m ha)
+    intro r s' ⟨hf, hobjs, hlen⟩
+    refine ⟨hf, ?_, by rw [hlen]; exact hn, by rw [hobjs]⟩
+    intro p hp
+    have : s'.obj o = s.obj o := by simp [State.obj, hobjs]
+    rw [this] at hp
+    exact hfresh p hp
+  · rename_i hfind
+    rcases hres with ⟨lv, t, rfl, hshape, _, _⟩ | ⟨a, hsrc, _, _⟩
+    · simp only []
+      rw [post_bind]
+      apply Post.of_eq _ _ (allocVal_eq lv _ t hshape s)
+      simp only []
+      apply Post.of_eq _ _ (addProp_eq _ _ _ _)
+      refine ⟨⟨?_, ?_, rfl⟩, ?_, by simp [addedState]; omega, by simp [addedState]⟩
+      · intro b hb
+        show (addedState _ o key _).buf b = s.buf b
+        have : (addedState { s with heap := s.heap ++ [⟨lv.dt, t, rowsOf (s.obj o).natoms (prod t) lv.data⟩] } o key
+            ⟨s.heap.length, List.range (s.obj o).natoms⟩).buf b =
+            ({ s with heap := s.heap ++ [⟨lv.dt, t, rowsOf (s.obj o).natoms (prod t) lv.data⟩] } : State).buf b := rfl
+        rw [this, buf_append_lt s _ b (by omega)]
+      · intro o' ho'
+        rw [obj_added]
+        have : o' ≠ o := by omega
+        simp [this]
+        rfl
+      · intro p hp
+        rw [obj_added] at hp
+        split at hp
+        · simp only [List.mem_append, List.mem_singleton] at hp
+          rcases hp with hp | rfl
+          · exact hfresh p hp
+          · exact hn
+        · exact hfresh p hp
+    · cases hsrc
+
+theorem GetItemRes.frame {s s' : State} {o o' : Nat} {sel : Sel} (hr : GetItemRes s o sel o' s') :
+    FrameOK s.heap.length s.objs.length s s' :=
+  ⟨fun b hb => hr.heap.buf b hb, fun o'' ho'' => hr.objs o'' ho'', hr.syss⟩
+
+theorem GetItemRes.freshObj {s s' : State} {o o' : Nat} {sel : Sel} (hr : GetItemRes s o sel o' s')
+    (hcopy : sel.view = false ∨ sel.pos.length = 1) : FreshObj s.heap.length o' s' := by
+  intro p' hp'
+  obtain ⟨p, _, hrel⟩ := hr.colsRev p' hp'
+  exact hrel.fresh hcopy
+
+theorem resolve_list_copy (n : Nat) (l : List Int) (sel : Sel) (h : resolve n (atomsIndex (.list l)) = .ok sel) :
+    sel.view = false := by
+  simp only [atomsIndex, resolve] at h
+  injection h with h; subst h; rfl
+
+/-- **frame of `extend`** — `atoms.extend(value)` leaves every buffer and every object that existed
+    before untouched and returns an object whose arrays all live in buffers allocated by the call. -/
+theorem extendWith_frame {κ : Nat → String} {s : State} (h : InvK κ s) (o donor : Nat) (hap : HasAP (s.obj o)) :
+    Post (extendWith o donor) s (fun r s' => (∀ e, r = .error e → s' = s) ∧
+      ∀ o', r = .ok o' → o' = s.objs.length ∧ FrameOK s.heap.length s.objs.length s s' ∧
+        FreshObj s.heap.length o' s') := by
+  unfold extendWith
+  rw [post_atomic, post_bind_getS]
+  simp only []
+  rw [post_bind]
+  apply Post.mono (getItem_refines h o _ hap)
+  intro r s1 ⟨_, hok1⟩
+  cases r with
+  | error e =>
+    refine ⟨fun _ _ => trivial, ?_⟩
+    intro o' hc; cases hc
+  | ok nw =>
+    simp only []
+    obtain ⟨sel, hres, hgr⟩ := hok1 nw rfl
+    have hcopy := resolve_list_copy _ _ _ hres
+    have hnw : nw = s.objs.length := hgr.id
+    have hf1 := hgr.frame
+    have hfresh1 := hgr.freshObj (Or.inl hcopy)
+    have hn1 : s.heap.length ≤ s1.heap.length := hgr.heap.len
+    rw [post_bind]
+    have hloop1 := post_forEach (s.obj donor).props
+      (fun p => do
+        let s1 ← getS
+        if ((s1.obj nw).find p.key).isSome then pure () else
+        if p.arr.idx = [] then fail .index else
+        let tr := arrTrail s1 p.arr
+        let dt := arrDt s1 p.arr
+        viewSet nw p.key (.lit ⟨dt, ((s.obj o).natoms + (s.obj donor).natoms) :: tr,
+          List.replicate (((s.obj o).natoms + (s.obj donor).natoms) * prod tr) (zeroCell dt)⟩))
+      (fun st => FrameOK s.heap.length s.objs.length s st ∧ FreshObj s.heap.length nw st ∧ s.heap.length ≤ st.heap.length)
+      (by
+        intro p hp st ⟨hf, hfr, hn⟩
+        rw [post_bind_getS]
+        split
+        · exact ⟨hf, hfr, hn⟩
+        · split
+          · exact ⟨hf, hfr, hn⟩
+          · simp only []
+            apply Post.mono (viewSet_lit_frame nw p.key _ st s.heap.length s.objs.length (by omega) hn hfr)
+            intro r st' ⟨hf', hfr', hn', _⟩
+            exact ⟨hf.trans hf', hfr', hn'⟩)
+      s1 ⟨hf1, hfresh1, hn1⟩
+    apply Post.mono hloop1
+    intro r s2 ⟨hf2, hfr2, hn2⟩
+    cases r with
+    | error e =>
+      refine ⟨fun _ _ => trivial, ?_⟩
+      intro o' hc; cases hc
+    | ok u =>
+      simp only []
+      rw [post_bind_getS, post_bind]
+      have hloop2 := post_forEach (s2.obj nw).props
+        (fun p => do
+          let s3 ← getS
+          let sel : Sel := { pos := sliceSel ((s.obj o).natoms + (s.obj donor).natoms) (some ((s.obj o).natoms : Int)) none 1,
+                             view := true, scalar := false }
+          match (s3.obj donor).find p.key with
+          | some da => assign p.arr sel (arrVal s3 da)
+          | none =>
+            match (s3.obj o).find p.key with
+            | none => fail .key
+            | some sa =>
+              if sa.idx = [] then fail .index else
+              let tr := arrTrail s3 sa
+              let dt := arrDt s3 sa
+              assign p.arr sel ⟨dt, (s.obj donor).natoms :: tr, List.replicate ((s.obj donor).natoms * prod tr) (zeroCell dt)⟩)
+        (fun st => FrameOK s.heap.length s.objs.length s st ∧ st.objs = s2.objs)
+        (by
+          intro p hp st ⟨hf, hobjs⟩
+          have hpb : s.heap.length ≤ p.arr.buf := hfr2 p hp
+          rw [post_bind_getS]
+          simp only []
+          split
+          · apply Post.mono (assign_frame p.arr _ _ st s.heap.length s.objs.length hpb)
+            intro r st' ⟨hf', hobjs', _⟩
+            exact ⟨hf.trans hf', hobjs'.trans hobjs⟩
+          · split
+            · exact ⟨hf, hobjs⟩
+            · split
+              · exact ⟨hf, hobjs⟩
+              · apply Post.mono (assign_frame p.arr _ _ st s.heap.length s.objs.length hpb)
+                intro r st' ⟨hf', hobjs', _⟩
+                exact ⟨hf.trans hf', hobjs'.trans hobjs⟩)
+        s2 ⟨hf2, rfl⟩
+      apply Post.mono hloop2
+      intro r s3 ⟨hf3, hobjs3⟩
+      cases r with
+      | error e =>
+        refine ⟨fun _ _ => trivial, ?_⟩
+        intro o' hc; cases hc
+      | ok u =>
+        simp only []
+        rw [post_pure]
+        refine ⟨?_, ?_⟩
+        · intro e hc; cases hc
+        · intro o' ho'
+          have : o' = nw := by
+            have : (Except.ok nw : Except Err Nat) = .ok o' := ho'
+            injection this with this; exact this.symm
+          subst this
+          refine ⟨hnw, hf3, ?_⟩
+          intro p hp
+          have : s3.obj o' = s2.obj o' := by simp [State.obj, hobjs3]
+          rw [this] at hp
+          exact hfr2 p hp
+
+theorem FrameOK.weaken {n m n' m' : Nat} {s s' : State} (h : FrameOK n' m' s s') (hn : n ≤ n') (hm : m ≤ m') :
+    FrameOK n m s s' :=
+  ⟨fun b hb => h.1 b (by omega), fun o ho => h.2.1 o (by omega), h.2.2⟩
+
+/-- the constructor called on literals touches nothing that existed and builds its object in fresh
+    buffers. -/
+theorem mkAtoms_lit_frame (natoms : Option Int) (atype pos : Option Val) (extra : List (String × Val)) (s : State) :
+    Post (mkAtoms natoms (atype.map .lit) (pos.map .lit) (extra.map (fun kv => (kv.1, Src.lit kv.2)))) s
+      (fun r s' => (∀ e, r = .error e → s' = s) ∧ ∀ o', r = .ok o' → o' = s.objs.length ∧
+        FrameOK s.heap.length s.objs.length s s' ∧ FreshObj s.heap.length o' s' ∧
+        s'.objs.length = s.objs.length + 1 ∧ s.heap.length ≤ s'.heap.length) := by
+  unfold mkAtoms
+  rw [post_atomic, post_bind_getS]
+  simp only []
+  rw [post_bind_liftE]
+  split
+  · rename_i n _
+    -- every source is a literal
+    obtain ⟨va, hva⟩ : ∃ va, (atype.map Src.lit).getD (.lit ⟨.int, [1], [.int 1]⟩) = .lit va := by
+      cases atype <;> exact ⟨_, rfl⟩
+    obtain ⟨vp, hvp⟩ : ∃ vp, (pos.map Src.lit).getD (.lit ⟨.flt, [1, 3], [.flt 0, .flt 0, .flt 0]⟩) = .lit vp := by
+      cases pos <;> exact ⟨_, rfl⟩
+    rw [hva, hvp]
+    unfold mkAtomsWith
+    rw [post_bind]
+    apply Post.of_eq _ _ (pushObj_eq _ s)
+    simp only []
+    generalize hs0 : ({ s with objs := s.objs ++ [⟨n, []⟩] } : State) = s0
+    have hf0 : FrameOK s.heap.length s.objs.length s s0 := by
+      rw [← hs0]
+      exact ⟨fun _ _ => rfl, fun o ho => obj_push_lt s _ o ho, rfl⟩
+    have hfr0 : FreshObj s.heap.length s.objs.length s0 := by
+      rw [← hs0]; intro p hp; rw [obj_push_eq] at hp; simp at hp
+    have hn0 : s.heap.length ≤ s0.heap.length := by rw [← hs0]; exact Nat.le_refl _
+    have hl0 : s0.objs.length = s.objs.length + 1 := by rw [← hs0]; simp
+    have step : ∀ (key : String) (v : Val) (st : State),
+        FrameOK s.heap.length s.objs.length s st ∧ FreshObj s.heap.length s.objs.length st ∧
+          s.heap.length ≤ st.heap.length ∧ st.objs.length = s.objs.length + 1 →
+        Post (viewSet s.objs.length key (.lit v)) st (fun _ st' =>
+          FrameOK s.heap.length s.objs.length s st' ∧ FreshObj s.heap.length s.objs.length st' ∧
+          s.heap.length ≤ st'.heap.length ∧ st'.objs.length = s.objs.length + 1) := by
+      intro key v st ⟨hf, hfr, hn, hl⟩
+      apply Post.mono (viewSet_lit_frame s.objs.length key v st s.heap.length s.objs.length (Nat.le_refl _) hn hfr)
+      intro r st' ⟨hf', hfr', hn', hl'⟩
+      exact ⟨hf.trans hf', hfr', hn', by rw [hl', hl]⟩
+    rw [post_bind]
+    apply Post.mono (step "atype" va s0 ⟨hf0, hfr0, hn0, hl0⟩)
+    intro r s1 h1
+    cases r with
+    | error e =>
+      refine ⟨fun _ _ => trivial, ?_⟩
+      intro o' hc; cases hc
+    | ok u =>
+      simp only []
+      rw [post_bind]
+      apply Post.mono (step "pos" vp s1 h1)
+      intro r s2 h2
+      cases r with
+      | error e =>
+        refine ⟨fun _ _ => trivial, ?_⟩
+        intro o' hc; cases hc
+      | ok u =>
+        simp only []
+        rw [post_bind]
+        have hloop := post_forEach (extra.map (fun kv => (kv.1, Src.lit kv.2)))
+          (fun kv => viewSet s.objs.length kv.1 kv.2)
+          (fun st => FrameOK s.heap.length s.objs.length s st ∧ FreshObj s.heap.length s.objs.length st ∧
+            s.heap.length ≤ st.heap.length ∧ st.objs.length = s.objs.length + 1)
+          (by
+            intro kv hkv st hst
+            simp only [List.mem_map] at hkv
+            obtain ⟨kv0, _, rfl⟩ := hkv
+            exact step kv0.1 kv0.2 st hst)
+          s2 h2
+        apply Post.mono hloop
+        intro r s3 h3
+        cases r with
+        | error e =>
+          refine ⟨fun _ _ => trivial, ?_⟩
+          intro o' hc; cases hc
+        | ok u =>
+          simp only []
+          rw [post_pure]
+          refine ⟨?_, ?_⟩
+          · intro e hc; cases hc
+          · intro o' ho'
+            have : o' = s.objs.length := by
+              have : (Except.ok s.objs.length : Except Err Nat) = .ok o' := ho'
+              injection this with this; exact this.symm
+            subst this
+            exact ⟨rfl, h3.1, h3.2.1, h3.2.2.2, h3.2.2.1⟩
+  · refine ⟨fun _ _ => trivial, ?_⟩
+    intro o' hc; cases hc
+
+/-- **frame of `extend(int)`**. -/
+theorem extendInt_frame {κ : Nat → String} {s : State} (h : InvK κ s) (o : Nat) (n : Int) (hap : HasAP (s.obj o))
+    (ho : o < s.objs.length) :
+    Post (extendInt o n) s (fun r s' => (∀ e, r = .error e → s' = s) ∧
+      ∀ o', r = .ok o' → FrameOK s.heap.length s.objs.length s s' ∧ FreshObj s.heap.length o' s') := by
+  unfold extendInt
+  rw [post_atomic, post_bind]
+  have h1 := inv_mkAtoms h (some n) none none [] (fun a ha => by cases ha) (fun a ha => by cases ha)
+    (fun kv hkv => by simp at hkv)
+  have h2 := mkAtoms_lit_frame (some n) none none [] s
+  apply Post.mono (Post.and h1 h2)
+  intro r s1 ⟨hm, _, hfr⟩
+  cases r with
+  | error e =>
+    refine ⟨fun _ _ => (by first | exact rfl | exact trivial), ?_⟩
+    intro o' hc; cases hc
+  | ok d =>
+    simp only []
+    obtain ⟨hd, hf1, _, hl1, hn1⟩ := hfr d rfl
+    obtain ⟨κ1, hinv1, hext1, _, _, _⟩ := hm
+    have hap1 : HasAP (s1.obj o) := hap.persists hext1.le o
+    apply Post.mono (extendWith_frame hinv1 o d hap1)
+    intro r s2 ⟨_, hok⟩
+    cases r with
+    | error e =>
+      refine ⟨fun _ _ => (by first | exact rfl | exact trivial), ?_⟩
+      intro o' hc; cases hc
+    | ok o' =>
+      refine ⟨?_, ?_⟩
+      · intro e hc; cases hc
+      · intro o'' ho''
+        have : o'' = o' := by
+          have : (Except.ok o' : Except Err Nat) = .ok o'' := ho''
+          injection this with this; exact this.symm
+        subst this
+        obtain ⟨_, hf2, hfr2⟩ := hok o'' rfl
+        refine ⟨hf1.trans (hf2.weaken hn1 (by omega)), ?_⟩
+        intro p hp
+        exact Nat.le_trans hn1 (hfr2 p hp)
+
+/-- **frame of `prop(index=…)`** (`deepcopy(self[index])`). -/
+theorem propGetAtoms_frame {κ : Nat → String} {s : State} (h : InvK κ s) (hb : Boundary s) (o : Nat) (ix : Index)
+    (ho : o < s.objs.length) :
+    Post (propGetAtoms o ix) s (fun r s' => (∀ e, r = .error e → s' = s) ∧
+      ∀ o', r = .ok o' → FrameOK s.heap.length s.objs.length s s' ∧ FreshObj s.heap.length o' s') := by
+  unfold propGetAtoms
+  rw [post_atomic, post_bind]
+  apply Post.mono (Post.and (inv_getItem h o ix) (getItem_refines h o ix (hb o ho)))
+  intro r s1 ⟨hm, _, hok1⟩
+  cases r with
+  | error e =>
+    refine ⟨fun _ _ => (by first | exact rfl | exact trivial), ?_⟩
+    intro o' hc; cases hc
+  | ok d =>
+    simp only []
+    obtain ⟨sel, _, hgr⟩ := hok1 d rfl
+    have hap1 : HasAP (s1.obj d) := by
+      obtain ⟨_, _, _, _, _, hok⟩ := hm
+      exact (hok d rfl).2.2
+    obtain ⟨κ1, hinv1, _, _, _, _⟩ := hm
+    apply Post.mono (deepcopy_refines hinv1 d hap1)
+    intro r s2 ⟨_, hok2⟩
+    cases r with
+    | error e =>
+      refine ⟨fun _ _ => (by first | exact rfl | exact trivial), ?_⟩
+      intro o' hc; cases hc
+    | ok o' =>
+      refine ⟨?_, ?_⟩
+      · intro e hc; cases hc
+      · intro o'' ho''
+        have : o'' = o' := by
+          have : (Except.ok o' : Except Err Nat) = .ok o'' := ho''
+          injection this with this; exact this.symm
+        subst this
+        have hgr2 := hok2 o'' rfl
+        have hl1 : s.objs.length ≤ s1.objs.length := by rw [hgr.objsLen]; omega
+        refine ⟨hgr.frame.trans (hgr2.frame.weaken hgr.heap.len hl1), ?_⟩
+        intro p hp
+        exact Nat.le_trans hgr.heap.len (hgr2.freshObj (Or.inl rfl) p hp)
+
 end Atomman.C06
